@@ -155,6 +155,7 @@ def harnesses(tier):
     ]
     for kind, nm in ((0, 'bzip2'), (1, 'gzip')):
         hs.append(Harness('%s_buffer' % nm, 'decomp', h_buffer, jobs=[dict(kind=kind, streams=n, truncate=False) for n in (1, 2, 3)] + [dict(kind=kind, streams=2, truncate=True), dict(kind=kind, streams=2, truncate=False, big=1)], testgen=gen(1), step_cap=20_000_000,
+                          tests=[dict(_job=3, csize0=2, psize0=2, csize1=2, psize1=2, truncate_to=t) for t in (1, 3)],
                           desc='%s in-memory decompressor on 1-3 concatenated streams: everything is returned; truncated input -> error' % nm, bounds='<= 3 streams, payload 1..3 bytes, or 10239..10241 bytes (stream ends around the border of the 10240-byte output chunk); abstract model of the library in the symbolic run, the real library in the native replay'))
     hs.append(Harness('gzip_file', 'io', h_gzip_fd, jobs=[dict(calls=3 * r + 2, reads=r, file_size=4) for r in ((1, 2) if q else (1, 2, 3))], native_ok=False,
                       desc='GzipDecompressor (file based) over scripted zlib stubs (gzdopen, gzoffset, gzread, gzclose_r returning any value their contracts allow): read() asks for the whole 1 MiB buffer and returns exactly what gzread stored (length and first / last byte), a negative gzread (damaged or truncated stream) and a non-zero gzclose_r (Z_BUF_ERROR: the file ends inside a stream) surface as gzip_error, offset() is the position zlib reports and never exceeds the file size, a failed gzdopen closes the descriptor',
